@@ -151,7 +151,22 @@ func (c *Cmd) Lattice(f *Field, thorough bool) []Choice {
 				add(fmt.Sprintf("pad%d", n), func(v reflect.Value) { v.SetBytes(make([]byte, n)) })
 			}
 		case RZStr16:
-			for _, s := range []string{"A\x00", "D\x00O\x00M\x00", "\x00\x01", "\xe9\x00\x3d\xd8\x00\xde", "W\x00O\x00R\x00K\x00G\x00R\x00O\x00U\x00P\x00"} {
+			// UTF-16LE names. Besides plain ASCII: code units with a zero LOW byte (U+0100 "Ā", U+0400 "Ѐ") next to
+			// units with a zero HIGH byte, so that the byte pair 00 00 occurs at an odd offset inside the string
+			// ("aĀb" = 61 00 | 00 01 | 62 00) - a decoder that looks for two zero bytes instead of a zero code unit
+			// cuts such a name; a surrogate pair; a high-half unit.
+			for _, s := range []string{
+				"A\x00",                    // "A"
+				"\x00\x01",                 // "Ā"
+				"a\x00\x00\x01b\x00",       // "aĀb"  (index 2: the value of the all-non-default base)
+				"a\x00\x00\x01",            // "aĀ"
+				"\x00\x01\x00\x01",         // "ĀĀ"
+				"a\x00b\x00\x00\x04c\x00",  // "abЀc"
+				"\x01\xd8\x00\xdc",         // U+10400 (surrogate pair D801 DC00)
+				"D\x00O\x00M\x00",          // "DOM"
+				"\xe9\x00\x3d\xd8\x00\xde", // "é" + U+1F600
+				"W\x00O\x00R\x00K\x00G\x00R\x00O\x00U\x00P\x00", // "WORKGROUP"
+			} {
 				s := s
 				add(fmt.Sprintf("utf16:%x", s), func(v reflect.Value) { v.SetBytes([]byte(s)) })
 			}
@@ -381,7 +396,9 @@ func elemCount(f *Field, v reflect.Value) int {
 	return 0
 }
 
-func fits(f *Field, x int) bool { return x >= 0 && (f.Width >= 8 || uint64(x) <= ^uint64(0)>>(64-8*uint(f.Width))) }
+func fits(f *Field, x int) bool {
+	return x >= 0 && (f.Width >= 8 || uint64(x) <= ^uint64(0)>>(64-8*uint(f.Width)))
+}
 
 func (c *Cmd) applyRelations(inst command_interface.CommandInterface, dev []int) error {
 	sv := reflect.ValueOf(inst).Elem()
